@@ -12,11 +12,11 @@ CHECKS = {
     "C18": dict(
         pkg="c18", race=False,
         technique="lock-step reference-model monitor + reset-twin relational monitor over seeded op sequences",
-        level_text="Reset overlapping Add (300 rounds per case; free-running, or both queued behind an identity Update that holds the instance lock and yields): afterwards the instance equals, bit for bit, a new instance with or without that sample. Every Add/Get/Reset/Update result of the real primitives is compared online with an independent reference fold "
+        level_text="MinimumMeasurement.Update with a positive result is modelled as one more sample. Reset overlapping Add (300 rounds per case; free-running, or both queued behind an identity Update that holds the instance lock and yields): afterwards the instance equals, bit for bit, a new instance with or without that sample. Every Add/Get/Reset/Update result of the real primitives is compared online with an independent reference fold "
                    "(minimum, latest, warm-up mean, hull, variance>=0), reset twins are compared bit-for-bit, the flag is checked against "
                    "observed value changes, and window folds against a reference and a permutation - over thousands (quick) to hundreds of "
                    "thousands (thorough) of seeded sequences. Exploration: it shows the property on the sequences run, not for all.", shards=(4, 16), timeout_s=(300, 1800),
-        require=["concurrent_reset_rounds", "adds_changing_value", "adds_not_changing_value", "reset_twin_pairs", "window_folds", "hull_checks",
+        require=["minimum_updates_modelled_as_a_sample", "concurrent_reset_rounds", "adds_changing_value", "adds_not_changing_value", "reset_twin_pairs", "window_folds", "hull_checks",
                  "warmup_mean_checks", "concurrent_minimum_rounds", "variance_alpha_twin_pairs", "concurrent_single_update_rounds"],
         rule="PRNG op sequences (add/get/update/reset) over samples in [1,2^50] for each primitive (minimum, single, "
              "exp-average, simple EMA, moving variance, windowless percentile) run in lock-step with a reference fold; "
@@ -29,12 +29,12 @@ CHECKS = {
     "C04": dict(
         pkg="c04", race=False, shard_env={"GO_CONCURRENCY_LIMIT_LOG10ROOT_PRE_COMPUTE": "4096", "GO_CONCURRENCY_LIMIT_SQRT_PRE_COMPUTE": "4096"}, shards=(4, 16), timeout_s=(300, 1800),
         technique="bounds-and-recover monitor after every sample over hostile seeded sample sequences",
-        level_text="After every OnSample (run under recover) of AIMD/Vegas/Gradient/Gradient2, bare and wrapped by windowed/traced limits, the "
+        level_text="A quarter of the Vegas cases carry caller-supplied step / threshold functions (limit/2, limit-3, threshold 0 / -1, +2); one case in five uses a debug-enabled logger; one in twelve an out-of-range smoothing (constructor default applies). After every OnSample (run under recover) of AIMD/Vegas/Gradient/Gradient2, bare and wrapped by windowed/traced limits, the "
                    "reported estimate is checked against [max(1,min), max(max,initial)] (AIMD: max(initial, max in-flight seen + increment)); "
                    "int(NaN) shows up as MinInt64 and trips the same bound. Hostile inputs: rtt 0/1/baseline/up to 2^62, in-flight 0..2^31-1, "
                    "drop-only phases; one shard in four each is started with both pre-computed tables enlarged, only the sqrt table, only the log10 table; one case in twelve asks for the default minimum (0) together with a queue allowance that is 0 for small limits "
                    "(fixed 0 or limit/10). Exploration over seeded sequences, not a proof for all inputs.",
-        require=["samples", "estimate_changes", "cases_with_rtt_zero", "cases_with_drop_only_phase", "cases_default_minimum_and_zero_queue_allowance"],
+        require=["vegas_cases_with_caller_supplied_functions", "cases_with_out_of_range_smoothing", "samples", "estimate_changes", "cases_with_rtt_zero", "cases_with_drop_only_phase", "cases_default_minimum_and_zero_queue_allowance"],
         rule="PRNG valid configuration (min<=initial incl. initial>max, smoothing/backoff in (0,1], queue allowance<=max) x wrapper "
              "(bare, windowed, traced, traced+windowed) x 50-400 samples from hostile/benign phases; non-trivial = the reported estimate changed at "
              "least once; distinct = distinct (config, wrapper, length, first sample).",
@@ -43,13 +43,13 @@ CHECKS = {
     "C06": dict(
         pkg="c06", race=False, shard_env={"GO_CONCURRENCY_LIMIT_LOG10ROOT_PRE_COMPUTE": "4096", "GO_CONCURRENCY_LIMIT_SQRT_PRE_COMPUTE": "4096"}, shards=(4, 16), timeout_s=(300, 1800),
         technique="before/after monitor on drop samples from seeded reachable states + bounded-progress monitor on sustained drop runs",
-        level_text="From PRNG-generated reachable states (config + random prior history) every drop sample is checked for non-increase of the "
+        level_text="A quarter of the Vegas cases carry caller-supplied step / threshold functions. From PRNG-generated reachable states (config + random prior history) every drop sample is checked for non-increase of the "
                    "reported estimate, AIMD additionally for the exact rule max(1,min(limit-1,floor(limit*ratio))) (exact rational and float floor "
                    "both accepted); sustained drop runs with unique increasing RTTs (so probes are observable) must reach the floor within an "
                    "analytic bound of effective samples; cap without enough effective samples is inconclusive. Concurrent: N drops delivered to one AIMD limit at once must "
                    "compose exactly; 2-8 goroutines deliver only drops to one Vegas / Gradient limit (large limits, the user-supplied queue function yields "
                    "or sleeps 20us) and the values reported to a change listener never rise. Exploration.",
-        require=["concurrent_drop_rounds/vegas", "concurrent_drop_rounds/gradient", "single_drop_samples", "single_drop_lowered", "aimd_exact_rule_checks", "sustained_drop_samples",
+        require=["vegas_cases_with_caller_supplied_functions", "concurrent_drop_rounds/vegas", "concurrent_drop_rounds/gradient", "single_drop_samples", "single_drop_lowered", "aimd_exact_rule_checks", "sustained_drop_samples",
                  "floor_reached/aimd", "floor_reached/vegas", "floor_reached/gradient", "probe_or_baseline_samples_observed", "concurrent_drop_rounds"],
         rule="case = (algorithm in AIMD/Vegas/Gradient, valid config, random prefix of 0-150 benign/hostile samples) then either 1-4 hostile drop "
              "samples or a sustained drop run; non-trivial = some drop lowered the estimate / the run started above the floor; distinct = "
@@ -59,12 +59,12 @@ CHECKS = {
     "C07": dict(
         pkg="c07", race=False, shard_env={"GO_CONCURRENCY_LIMIT_LOG10ROOT_PRE_COMPUTE": "4096", "GO_CONCURRENCY_LIMIT_SQRT_PRE_COMPUTE": "4096"}, shards=(4, 16), timeout_s=(300, 1800),
         technique="before/after monitor on app-limited samples + bounded-progress (stuck-detection) monitor on healthy saturated runs from seeded reachable states",
-        level_text="Gradient recovery runs with probing disabled last 2100 samples and must never collapse at a probe. From PRNG-generated reachable states (valid config + prior history with drops, zero and huge RTTs): app-limited non-drop samples "
+        level_text="A quarter of the non-AIMD recovery runs use a debug-enabled logger; one AIMD run in six asks for the default increment (0 / -1 => 1). Gradient recovery runs with probing disabled last 2100 samples and must never collapse at a probe. From PRNG-generated reachable states (valid config + prior history with drops, zero and huge RTTs): app-limited non-drop samples "
                    "(2*inFlight < reported estimate; AIMD inFlight < limit, including the edge value) must not raise the estimate; healthy saturated "
                    "runs at the baseline RTT must add the increment on every sample (AIMD), grow by at least the queue allowance per non-probe sample "
                    "(Gradient), or bring the reported estimate to ceiling-1 within an analytic sample bound (Vegas, Gradient2); a run that stopped "
                    "rising below the ceiling is a violation, one still rising at the cap is inconclusive. Exploration.",
-        require=["gradient_recovery_runs_with_probing_disabled", "app_limited_samples", "app_limited_samples_at_the_edge", "healthy_samples", "recovered/aimd", "recovered/vegas",
+        require=["recovery_runs_with_a_debug_logger", "aimd_recovery_runs_with_the_default_increment", "gradient_recovery_runs_with_probing_disabled", "app_limited_samples", "app_limited_samples_at_the_edge", "healthy_samples", "recovered/aimd", "recovered/vegas",
                  "recovered/gradient", "recovered/gradient2", "gradient_probes_observed", "concurrent_saturated_rounds"],
         rule="case = (algorithm, valid config, random prefix of 0-150 hostile/drop-heavy/benign samples) then app-limited samples or a healthy "
              "saturated run; non-trivial = run started below ceiling-1 (always for app-limited cases); distinct = distinct (config, start estimate, history length).",
@@ -74,10 +74,10 @@ CHECKS = {
     "C08": dict(
         pkg="c08", race=False, shards=(4, 16), timeout_s=(300, 1800),
         technique="relational two-run monitor: identically seeded twin instances, same history, final sample differing only in RTT",
-        level_text="Three state classes: PRNG history (19/24), estimate exactly at its maximum (3/24: initial = max, app-limited history), estimate above its maximum (2/24: initial > max). Twin instances of Vegas/Gradient/Gradient2 are built under the same math/rand seed (identical probe decisions), replay the same "
+        level_text="A fourth state class: an estimate that has just grown into its maximum (2/24). One case in five with a debug logger, one in twelve with out-of-range smoothing. The known finding is keyed by 'estimate above max AND built with initial > max'. Three state classes: PRNG history (19/24), estimate exactly at its maximum (3/24: initial = max, app-limited history), estimate above its maximum (2/24: initial > max). Twin instances of Vegas/Gradient/Gradient2 are built under the same math/rand seed (identical probe decisions), replay the same "
                    "PRNG prefix, then receive a final sample with rtt_lo < rtt_hi (both >= current baseline, same in-flight and drop flag); the "
                    "monitor requires estimate(rtt_hi) <= estimate(rtt_lo). Twins that diverge before the final sample are inconclusive. Exploration over seeded pairs.",
-        require=["pairs_from_an_estimate_exactly_at_its_maximum", "pairs_from_an_estimate_above_its_maximum", "pairs", "pairs_strictly_ordered", "pairs_where_estimate_moved"],
+        require=["pairs_from_an_estimate_grown_into_its_maximum", "pairs_from_an_estimate_exactly_at_its_maximum", "pairs_from_an_estimate_above_its_maximum", "pairs", "pairs_strictly_ordered", "pairs_where_estimate_moved"],
         rule="pair = (algorithm, valid config, prefix of 0-120 samples, rtt_lo/rtt_hi with relative gap >= 1e-6 and <= 2^40, in-flight, drop flag); "
              "non-trivial = at least one twin's estimate moved on the final sample; distinct = distinct (config, prefix length, rtt pair, in-flight, drop).",
         assumptions=COMMON_ASSUME + ["math/rand.Seed is effective for the library's jitter (harness go.mod 'go 1.23' keeps randseednop=0); twins are checked for equal state before the final sample"],
@@ -100,13 +100,13 @@ CHECKS = {
     "C16": dict(
         pkg="c16", race=False, shards=(4, 16), timeout_s=(300, 1800),
         technique="per-operation monitor: recording change listeners vs EstimatedLimit() before/after every OnSample/SetLimit",
-        level_text="Concurrent variant: in half of the cases 2-8 listeners are registered at the same moment from different goroutines; if any listener heard of a change, all did. For AIMD/Vegas/Gradient/Gradient2/Settable/Fixed and a scripted recorder, bare and under Windowed, Traced and Traced(Windowed): "
+        level_text="Gradient / Gradient2 also built below their own minimum; explicit sets to 0. Concurrent variant: in half of the cases 2-8 listeners are registered at the same moment from different goroutines; if any listener heard of a change, all did. For AIMD/Vegas/Gradient/Gradient2/Settable/Fixed and a scripted recorder, bare and under Windowed, Traced and Traced(Windowed): "
                    "around every operation the monitor compares EstimatedLimit() before/after, requires every previously registered listener to "
                    "have been called if it changed, requires the last notified value to equal the new estimate, requires the wrapper's estimate "
                    "to equal the delegate's, and requires Traced to forward the sample unchanged. Listeners are registered at random points. "
                    "A concurrent variant (2-6 goroutines feeding one sample-driven algorithm, listeners pausing before they record) requires every "
                    "listener's last value to equal EstimatedLimit() at quiescence. Exploration.",
-        require=["concurrent_registration_cases", "operations", "estimate_changes", "notifications_checked", "listeners_registered", "traced_forward_checks",
+        require=["cases_built_below_the_minimum", "explicit_sets_to_zero", "concurrent_registration_cases", "operations", "estimate_changes", "notifications_checked", "listeners_registered", "traced_forward_checks",
                  "concurrent_cases", "concurrent_listener_final_checks"],
         rule="case = (inner limit kind + valid config, wrapper chain, 40-400 ops: OnSample benign/hostile, SetLimit for settable, late NotifyOnChange); "
              "non-trivial = estimate changed at least once with a listener registered; distinct = distinct (config, wrapper, op count, listener count, last op).",
@@ -135,7 +135,7 @@ CHECKS = {
     "C14": dict(
         pkg="c14", race=False, shards=(4, 16), timeout_s=(300, 1800),
         technique="event-sequence monitor over test doubles (recording limiter/listener/handler/invoker/stream, scripted classifiers)",
-        level_text="Every intercepted call is judged from the recorded event sequence: exactly one Acquire, on the limiter configured for that "
+        level_text="One stream in five runs behind another stream interceptor of this package (each gates every operation). Every intercepted call is judged from the recorded event sequence: exactly one Acquire, on the limiter configured for that "
                    "operation (unary / receive / send), before the wrapped call; wrapped call invoked iff granted; exactly one completion whose "
                    "outcome equals the consulted classifier's result (success for an error-free stream op; default classifiers when none configured); "
                    "result and error returned by identity; on refusal nothing else touched and the status code equals the limit-exceeded "
@@ -143,7 +143,7 @@ CHECKS = {
                    "error / limiter objects (identity). The two stream response classifiers are configured independently (a classifier serves one direction only; the other runs on the default); a second stream through "
                    "another interceptor is opened and used in the middle of the first stream's handler. All option combinations incl. defaults, random RecvMsg/SendMsg sequences, plus a shared interceptor over a real "
                    "DefaultLimiter whose in-flight must return to 0. Exploration over seeded inputs.",
-        require=["stream_ops_with_only_one_response_classifier_configured", "streams_opened_while_another_is_open", "unary_calls", "stream_ops", "granted_calls_checked", "refused_calls_checked", "send_ops_on_recording_send_limiter",
+        require=["streams_behind_another_stream_interceptor", "stream_ops_with_only_one_response_classifier_configured", "streams_opened_while_another_is_open", "unary_calls", "stream_ops", "granted_calls_checked", "refused_calls_checked", "send_ops_on_recording_send_limiter",
                  "recv_ops_on_recording_recv_limiter", "shared_interceptor_calls", "calls_with_a_dead_context"],
         rule="case = unary client/server call (grant/refuse, handler result, classifier result, option subset) or a stream with 1-12 RecvMsg/SendMsg ops "
              "(each with its own grant/error/classifier result) or a shared-interceptor stress; non-trivial = every judged case; distinct = distinct "
@@ -154,7 +154,7 @@ CHECKS = {
     "C20": dict(
         pkg="c20", race=False, shards=(8, 16), timeout_s=(600, 3000),
         technique="recording MetricRegistry + lock-step model of emitted samples/gauges; backend-content and dogstatsd wire-capture monitors; poller life-cycle monitor (goroutine census + poll counters)",
-        level_text="With a recording registry every admission decision of Simple/Precise/Lookup/Predicate strategies must emit exactly the in-flight "
+        level_text="Limiter-path cases: the in-flight sample an instrumented limit emits per window equals the peak at admission incl. dropped requests, drop counter iff the window had a drop; concurrent limiter cases: no in-flight figure above the constant limit. With a recording registry every admission decision of Simple/Precise/Lookup/Predicate strategies must emit exactly the in-flight "
                    "(bin) count at the decision, gauges must equal the enforced limit/shares after every step, every OnSample of every limit kind must "
                    "emit rtt and in-flight once and the drop counter iff dropped under the prefixed names. The bundled registries are checked through the "
                    "go-metrics registry contents and the captured dogstatsd wire lines (kind suffix, prefixed name, value), the address-based datadog "
@@ -164,7 +164,7 @@ CHECKS = {
                    "Start/Stop/RegisterGauge sequences (sequential and concurrent) with a census of live poller goroutines (1 iff started, never 2, 0 "
                    "after Stop returns), frozen supplier counts while stopped, and a watchdog that classifies a hang as the Stop-vs-tick wait-for cycle "
                    "from the goroutine dump. Exploration.",
-        require=["queue_gauge_dynamic_cases", "strategy_decisions", "partition_decisions", "limit_samples", "limit_drop_samples", "gauge_reads", "forwarded_samples_checked",
+        require=["limiter_path_windows", "concurrent_limiter_inflight_samples", "queue_gauge_dynamic_cases", "strategy_decisions", "partition_decisions", "limit_samples", "limit_drop_samples", "gauge_reads", "forwarded_samples_checked",
                  "polled_gauge_checks", "forwarded_samples_checked_via_udp", "lifecycle_states_checked", "frozen_poll_count_checks", "live_poll_observations", "lifecycle_cases/gometrics",
                  "lifecycle_cases/datadog", "concurrent_lifecycle_cases", "concurrent_strategy_sample_rounds"],
         rule="case kinds: strategy op sequence (30-80 ops), partitioned strategy op sequence, limit sample sequence (30-90 samples, every limit kind incl. "
@@ -176,14 +176,14 @@ CHECKS = {
     "C09": dict(
         pkg="c09", race=False, shards=(4, 16), timeout_s=(600, 3000),
         technique="recording delegate limit + reference fold, DefaultLimiter driven on a synctest virtual clock (exact RTTs / window boundaries), WindowedLimit on explicit timestamps",
-        level_text="Concurrent windowed variant: while a slow (yielding) delegate is handed window 1 another goroutine reports samples incl. a drop; exactly one delivered window carries the drop flag. A recording core.Limit receives what the limiter/windowed limit delivers; a reference fold of the qualifying completions since the last "
+        level_text="Three default-limiter cases in four go through a wrapper (queue FIFO/LIFO, deprecated constructors, blocking, deadline) whose listeners forward the outcome. Concurrent windowed variant: while a slow (yielding) delegate is handed window 1 another goroutine reports samples incl. a drop; exactly one delivered window carries the drop flag. A recording core.Limit receives what the limiter/windowed limit delivers; a reference fold of the qualifying completions since the last "
                    "delivery runs beside it. Separate sub-oracles: delivered values differ from fold (min RTT resp. mean RTT, max in-flight, drop flag iff any "
                    "drop in the window), delivery of an unready window, delivery before the previous window's period elapsed, ready window not "
                    "delivered at a qualifying completion, delivery triggered by an ignored / below-threshold completion. A third variant completes 2-3 "
                    "tokens at the same virtual instant from different goroutines (yield at the verif point before the update lock) and keeps the set of "
                    "candidate pending folds: a delivery must be candidate + non-empty subset of the simultaneous completions with more than windowSize "
                    "successes. Exploration over seeded histories.",
-        require=["windowed_concurrent_rounds", "default_completions", "default_windows_delivered", "default_nonqualifying_completions", "default_windows_with_drop_before_last_completion",
+        require=["default_limiter_cases_through_a_wrapper", "windowed_concurrent_rounds", "default_completions", "default_windows_delivered", "default_nonqualifying_completions", "default_windows_with_drop_before_last_completion",
                  "windowed_samples", "windowed_windows_delivered", "windowed_samples_below_threshold", "windowed_windows_with_drop_before_last_sample",
                  "windowed_drop_only_windows_delivered", "simultaneous_rounds", "simultaneous_windows_delivered", "simultaneous_rounds_at_the_readiness_boundary"],
         rule="default: 150-650 acquire/sleep/complete steps with 1-6 holders, outcomes success/ignore/dropped, durations 1ns-8ms, windowSize 10-30, "
@@ -195,7 +195,7 @@ CHECKS = {
     "C10": dict(
         pkg="c10", race=False, shards=(8, 16), timeout_s=(600, 3600),
         technique="quiescence-invariant monitor in a synctest bubble under forced schedules (releases injected at schedule points via instrumented delegate, verif hooks and an actor goroutine)",
-        level_text="Liveness restated as safety at quiescence: after every release, when all goroutines of the bubble are durably blocked and virtual time "
+        level_text="Every delegate attempt must carry a caller's own context (a hand-off evaluated for another context is evaluated for another caller). Liveness restated as safety at quiescence: after every release, when all goroutines of the bubble are durably blocked and virtual time "
                    "has not moved, 'capacity free and a caller still blocked' is a violation. The release is injected at: before arrival, after the "
                    "caller's 1st/2nd failed delegate attempt, between backlog push and select (verif hooks), when asleep, at the failed retry of a woken "
                    "loser, while unblock hands to a waiter that is being cancelled / timing out at the same instant, and with the broadcast delayed after "
@@ -214,7 +214,7 @@ CHECKS = {
     "C11": dict(
         pkg="c11", race=False, shards=(4, 16), timeout_s=(600, 3000),
         technique="grant-order monitor in a synctest bubble: arrival order fixed by quiescence between arrivals, observed grant vs FIFO/LIFO model of still-waiting callers",
-        level_text="Capacity 1 is held; waiters arrive one at a time with synctest.Wait() between arrivals (arrival order is a fact); PRNG interleaves "
+        level_text="A release landing on an arriving caller (verif point before the push): the unit goes to the caller the order designates among the queued ones and the newcomer. Capacity 1 is held; waiters arrive one at a time with synctest.Wait() between arrivals (arrival order is a fact); PRNG interleaves "
                    "arrivals, cancellations (eviction on), staggered time-outs, releases and releases whose hand-off attempt the (injected) delegate "
                    "refuses; after each release exactly one waiter must be granted and it "
                    "must be the oldest (FIFO) / newest (LIFO) still waiting. Releases that coincide with a departure - the holder completes in the same breath as a "
@@ -223,7 +223,7 @@ CHECKS = {
                    "and leaves (cancelled) must be refused, not take the unit. Two-holder rounds (capacity 2, three queued callers): the second holder completes at the instant the first release's "
                    "further hand-off attempt is refused (or right afterwards) - the two units must be held by the first two callers in order. Every constructor: FromConfig{fifo,lifo,default}, WithDefaults, the "
                    "deprecated Fifo/Lifo constructors (+WithDefaults), FixedPool and Pool with OrderingFIFO/LIFO (also with backlog sizes 0 / -1 = default). Exploration over seeded scenarios.",
-        require=["two_holder_rounds", "departures_while_a_unit_lies_free", "releases_coinciding_with_a_departure", "grants_checked", "grants_with_a_choice", "releases_with_refused_handoff", "scenarios/fifo", "scenarios/lifo", "constructor/WithDefaults",
+        require=["releases_landing_on_an_arriving_caller", "two_holder_rounds", "departures_while_a_unit_lies_free", "releases_coinciding_with_a_departure", "grants_checked", "grants_with_a_choice", "releases_with_refused_handoff", "scenarios/fifo", "scenarios/lifo", "constructor/WithDefaults",
                  "constructor/NewLifoBlockingLimiterWithDefaults", "constructor/FixedPool{OrderingLIFO}", "constructor/Pool{OrderingFIFO}"],
         rule="scenario = (constructor (20), 6-20 ops: arrival / cancel / time-out of the oldest / release); non-trivial = at least two grants; distinct = distinct (constructor, trace).",
         assumptions=COMMON_ASSUME + ["a caller whose time-out or cancellation coincides with a release may legitimately still be granted (it was queued when the hand-off happened)"],
@@ -231,7 +231,7 @@ CHECKS = {
     "C13": dict(
         pkg="c13", race=False, shards=(4, 16), timeout_s=(600, 3000),
         technique="exact-instant monitor on a synctest virtual clock: return instant of every blocked Acquire vs its bound, busy count after refusals",
-        level_text="For blocking (timeout 0/T), deadline and queue (FIFO/LIFO, eviction on/off) limiters with capacity exhausted and no release, the "
+        level_text="Real-time release-in-progress cases: a caller arriving while another caller's completion is in progress (slow delegate listener) is still bounded by its context / the deadline. For blocking (timeout 0/T), deadline and queue (FIFO/LIFO, eviction on/off) limiters with capacity exhausted and no release, the "
                    "blocked call must return refused at exactly its bound (backlog timeout, deadline, cancellation instant; cancellation ignored by the "
                    "queue limiter without eviction) - not earlier, not later - with cancellation placed before / at / after arrival and at / after the "
                    "bound, arrivals before / at / after / less than a millisecond (down to 1 ns) before the deadline; calls for which no bound applies must still be blocked; already-cancelled "
@@ -241,7 +241,7 @@ CHECKS = {
                    "the backlog time-out disabled (negative) are bounded by the context only (eviction on) or not at all; deadline limiters with an 'effectively never' "
                    "deadline (beyond 2262, e.g. now+MaxInt64ns, 9999-12-31) must grant free capacity and keep a call blocked until its context ends or capacity is offered. "
                    "Exploration over a grid x PRNG durations.",
-        require=["scenarios", "exact_return_instants_checked", "refused_calls_hold_nothing_checks", "calls_correctly_still_blocked",
+        require=["release_in_progress_cases", "scenarios", "exact_return_instants_checked", "refused_calls_hold_nothing_checks", "calls_correctly_still_blocked",
                  "calls_exactly_at_the_deadline", "family/queue", "family/deadline", "family/blocking", "contexts_ending_by_their_own_deadline", "two_waiter_scenarios", "slow_delegate_scenarios", "far_deadline_scenarios"],
         rule="grid = limiter kind (9) x cancel placement (6) x arrival placement (3, deadline only) x capacity exhausted/free, each with PRNG timeout "
              "(1ms-1h), arrival and cancel instants; quick 20 per cell, thorough 5000; all cases non-trivial; distinct = distinct (cell, instants).",
@@ -250,12 +250,12 @@ CHECKS = {
     "C12": dict(
         pkg="c12", race=False, shards=(4, 16), timeout_s=(600, 3000),
         technique="quiescence-invariant monitor in a synctest bubble: queue_size gauge (recording registry) = backlog length (verif accessor) = callers inside Acquire <= bound; zero-virtual-time refusal at a full backlog",
-        level_text="One single arrival in four comes with an already-done context. PRNG sequences of single arrivals, simultaneous bursts, releases (all outcomes), cancellations and time advances (across backlog "
+        level_text="Release ops that cancel the hand-off target while the delegate is being asked; pool cases (FixedPool / Pool x FIFO/LIFO): exactly the configured backlog bound of callers waits, further ones are refused at once, queue gauges agree. One single arrival in four comes with an already-done context. PRNG sequences of single arrivals, simultaneous bursts, releases (all outcomes), cancellations and time advances (across backlog "
                    "time-outs) on the queue limiter (FIFO/LIFO/default, eviction on/off, backlog 1-4, capacity 1-2), optionally with yields at the "
                    "check->push, push->select and hand-off windows. At every quiescent point the public queue_size gauge, the backlog length and the "
                    "number of callers whose Acquire has not returned must agree and stay within the bound; an arrival at a full backlog must be "
                    "refused at the instant it arrived; a cancelled caller (eviction on) must have left. Exploration.",
-        require=["arrivals_with_a_done_context", "scenarios", "quiescent_checks", "arrivals_at_full_backlog", "simultaneous_bursts", "give_ups_overlapping_a_release", "default_bound_cases", "return_instant_backlog_checks", "return_instant_stress_runs"],
+        require=["pool_backlog_bound_cases", "arrivals_with_a_done_context", "scenarios", "quiescent_checks", "arrivals_at_full_backlog", "simultaneous_bursts", "give_ups_overlapping_a_release", "default_bound_cases", "return_instant_backlog_checks", "return_instant_stress_runs"],
         rule="scenario = (queue config, capacity, 8-32 ops: arrive / burst of 2-5 / release / cancel / sleep); non-trivial = more than 5 quiescent "
              "checks; distinct = distinct (config, op list).",
         assumptions=COMMON_ASSUME,
@@ -263,7 +263,7 @@ CHECKS = {
     "C19": dict(
         pkg="c19", race=False, shards=(6, 16), timeout_s=(600, 3000),
         technique="holder-bracket monitor + every-caller-granted-within-timeout monitor on a synctest virtual clock; real-time stress with stuck-state classification",
-        level_text="FixedPool and Pool x {random, FIFO, LIFO}, limit 1-4, callers = limit+1..limit+backlog with PRNG arrival instants (also all "
+        level_text="Two-releases / two-parked cases over the simple strategy: the second holder completes while the first hand-off is inside the strategy (verif point) - both parked callers are served. FixedPool and Pool x {random, FIFO, LIFO}, limit 1-4, callers = limit+1..limit+backlog with PRNG arrival instants (also all "
                    "simultaneous) and hold times (also zero), a quarter of the callers cancelling their context while possibly queued, time-out above the "
                    "longest possible wait (random pools: poll period 0 / 7 ms / long): a harness bracket counter (a lower bound of the true "
                    "holders) must never exceed the limit, every caller that did not cancel must be granted (queue pools: within the time-out of its arrival, exact "
@@ -272,7 +272,7 @@ CHECKS = {
                    "all units held again, one more caller must queue and be served by the next release. "
                    "A real-time stress tier (zero hold, 300 iterations per caller, time-out 1h) must finish without refusals; a run that stops progressing "
                    "with capacity free is classified as stuck (violation), anything else as inconclusive. Exploration.",
-        require=["release_at_point_cases/queue.before_push", "release_at_point_cases/blocking.helper_before_lock", "second_phase_probes", "virtual_scenarios_with_more_callers_than_limit_plus_backlog", "virtual_scenarios", "virtual_callers_that_had_to_wait", "virtual_scenarios_reaching_the_limit", "virtual_callers_cancelling_while_queued", "virtual_scenarios_with_colliding_timeouts", "stress_runs", "stress_grants"],
+        require=["two_releases_two_parked_cases", "release_at_point_cases/queue.before_push", "release_at_point_cases/blocking.helper_before_lock", "second_phase_probes", "virtual_scenarios_with_more_callers_than_limit_plus_backlog", "virtual_scenarios", "virtual_callers_that_had_to_wait", "virtual_scenarios_reaching_the_limit", "virtual_callers_cancelling_while_queued", "virtual_scenarios_with_colliding_timeouts", "stress_runs", "stress_grants"],
         rule="virtual scenario = (pool kind, ordering, limit, backlog, callers, per-caller arrival/hold/outcome); stress = (same config, real time); "
              "non-trivial = at least one caller had to wait; distinct = distinct (config, first caller).",
         assumptions=COMMON_ASSUME + ["the bracket counter is incremented after Acquire returned and decremented before completion, so it never over-counts holders"],
@@ -280,14 +280,14 @@ CHECKS = {
     "C02": dict(
         pkg="c02", race=False, shards=(8, 16), timeout_s=(600, 3600),
         technique="conservation monitor: per-layer counts vs harness token ledger after every step / at every quiescent point (synctest), exactly-once accounting of delegate tokens, re-admission of the full limit",
-        level_text="(A') 150 rounds per case in which one holder completes while another caller is being admitted (a user metric registry yields inside the strategy's sample emission): at rest strategy count and limiter gauge equal the tokens outstanding. (A) DefaultLimiter over Simple/Precise/Lookup/Predicate, sequential random acquire/complete with all outcomes: strategy busy, bin "
+        level_text="Sequential cases change the strategy's limit (also below what is outstanding) - nothing granted is written off. Shared-context cases: 2-4 callers queued with one and the same context value, the oldest times out, the holder completes - every caller is an individual. (A') 150 rounds per case in which one holder completes while another caller is being admitted (a user metric registry yields inside the strategy's sample emission): at rest strategy count and limiter gauge equal the tokens outstanding. (A) DefaultLimiter over Simple/Precise/Lookup/Predicate, sequential random acquire/complete with all outcomes: strategy busy, bin "
                    "busy and the limiter's in-flight gauge equal the harness's outstanding tokens after every step. (B) blocking / deadline / queue stacks in a "
                    "synctest bubble with arrivals, bursts, releases, cancellations, time advances across time-outs and releases placed at the very "
                    "instant of a bound, optional yields in the push/hand-off windows: at every quiescent point busy = gauge = outstanding delegate tokens = "
                    "granted - completed, listener!=nil iff ok, no delegate token completed twice; after teardown all zero, backlog empty, exactly the limit "
                    "re-admitted. (C) real-time stress (8-16 goroutines, random cancels, 1-3 ms time-outs) with the same end-state checks. (D) pools "
                    "behaviourally. Exploration.",
-        require=["gauge_at_rest_checks", "sequential_layer_checks", "completions/success", "completions/ignore", "completions/dropped", "bubble_scenarios/blocking",
+        require=["limit_lowered_below_outstanding_tokens", "shared_context_cases", "gauge_at_rest_checks", "sequential_layer_checks", "completions/success", "completions/ignore", "completions/dropped", "bubble_scenarios/blocking",
                  "bubble_scenarios/deadline", "bubble_scenarios/queue", "quiescent_checks", "give_up_events_injected",
                  "releases_at_the_instant_of_a_bound", "bubble_scenarios_with_slow_delegate", "unknown_bin_conservation_probes", "partition_removed_with_tokens_outstanding", "stress_grants", "stress_refusals", "pool_cases"],
         rule="cases: sequential stack (40-120 ops), bubble scenario (8-32 ops on a PRNG limiter kind/capacity/time-out), pool churn, stress run; non-trivial = "
@@ -297,12 +297,12 @@ CHECKS = {
     "C05": dict(
         pkg="c05", race=False, shards=(4, 16), timeout_s=(600, 3000),
         technique="recording limit (scripted or wrapping a real algorithm) + equality monitor on the strategy's enforced limit and partition shares after construction and after every sample-driven update (synctest clock closes windows deterministically)",
-        level_text="One case in six uses an algorithm whose estimate is changed from outside between windows (SettableLimit) - after the next completed window enforcement must follow. DefaultLimiter over Simple/Precise/Lookup/Predicate with a recording core.Limit whose estimate trajectory contains 0, negative, "
+        level_text="One case in four builds the strategy with the very number the algorithm starts from (also 0 / negative); one case in twenty goes through NewDefaultLimiterWithDefaults with a strategy built with another number. One case in six uses an algorithm whose estimate is changed from outside between windows (SettableLimit) - after the next completed window enforcement must follow. DefaultLimiter over Simple/Precise/Lookup/Predicate with a recording core.Limit whose estimate trajectory contains 0, negative, "
                    "repeated and large values (or a real AIMD/Vegas/Gradient2 underneath): right after construction and after every completion during which "
                    "the recorder received an OnSample, the strategy's limit must equal max(1, the estimate the recorder returned) and every partition "
                    "share max(1, ceil(limit x fraction)) of that same value; the lookup strategy's unknown bucket is probed behaviourally. A concurrent "
                    "variant (8 goroutines completing) checks the equality at quiescence. Exploration.",
-        require=["out_of_band_estimate_changes", "enforcement_checks", "share_checks", "updates_observed", "unknown_bucket_probes", "concurrent_scenarios", "add_vs_update_rounds_with_an_update",
+        require=["defaults_constructor_cases", "out_of_band_estimate_changes", "enforcement_checks", "share_checks", "updates_observed", "unknown_bucket_probes", "concurrent_scenarios", "add_vs_update_rounds_with_an_update",
                  "scenarios/simple", "scenarios/precise", "scenarios/lookup", "scenarios/predicate"],
         rule="scenario = (strategy kind with dyadic fractions, scripted trajectory or real algorithm, windowSize 10-13, 150-550 driver steps or 8x40 "
              "concurrent iterations); non-trivial = at least two updates observed; distinct = distinct (config, update count).",
@@ -311,7 +311,7 @@ CHECKS = {
     "C01": dict(
         pkg="c01", race=False, shards=(4, 16), timeout_s=(600, 3600), parallel=4,
         technique="porcupine linearizability check of recorded client-boundary histories against a counting gate (held, limit) + offline interval sweep (lower/upper bounds of simultaneous holders) over long histories + at-hook assertion in an injected strategy wrapper that every SetLimit is applied while the estimate it carries is still in force, with sequential probes at rest",
-        level_text="M1: 2-8 goroutines drive DefaultLimiter over Simple/Precise (scripted estimate trajectory incl. 0/negative/repeats, or AIMD/Gradient2 "
+        level_text="M2 limiters are built with a minimum-RTT threshold of 0, 100us or 1s (sub-threshold completions give their unit back like any other). M1: 2-8 goroutines drive DefaultLimiter over Simple/Precise (scripted estimate trajectory incl. 0/negative/repeats, or AIMD/Gradient2 "
                    "underneath, window pre-filled so sample-driven SetLimit happens inside the history) and PreciseStrategy directly (with concurrent "
                    "SetLimit); call/return events on one logical clock, completions split into REL and SET at the recorded entry of the algorithm's "
                    "OnSample; porcupine decides whether some linearization is a legal run of an atomic counting gate (Illegal = violation with the history, "
